@@ -29,7 +29,7 @@ def parseScript (m : List (String × String)) (tlsOk : Bool) : Script :=
     authReply := match getRaw m "auth" with | "success" => .success | "failure" => .failure | "other" => .otherPacket | _ => .undecodable
     open3 := getB m "o3"
     feat3 := parseFeat (getRaw m "f3")
-    resumeReply := match getRaw m "res" with | "same" => .resumedSame | "otherid" => .resumedOther | "failed" => .failed | "other" => .otherPacket | _ => .undecodable
+    resumeReply := match getRaw m "res" with | "same" => .resumedSame | "otherid" => .resumedOther | "noprev" => .resumedOther | "failed" => .failed | "other" => .otherPacket | _ => .undecodable
     bindReply := match getRaw m "bind" with | "result" => .resultBind | "error" => .errorBind | "nobind" => .resultNoBind | "noniq" => .nonIq | _ => .undecodable
     sessReply := match getRaw m "sess" with | "result" => .result | "error" => .error | "noniq" => .nonIq | _ => .undecodable
     enableReply := match getRaw m "en" with | "enabled1" => .enabled true | "enabled0" => .enabled false | "failed" => .failed | "other" => .otherPacket | _ => .undecodable
